@@ -475,6 +475,40 @@ func smbDecoy(name string) {
 	}
 }
 
+// The byte-string fields of a structure as consecutive windows of ONE backing array, each with the capacity that is
+// left behind it — the way Unmarshal hands them out of a received buffer.  An encoder that appends to a field instead
+// of to its own buffer then writes over its neighbours.
+func shareBacking(c command_interface.CommandInterface) {
+	sv := cmdStruct(c)
+	byType := map[reflect.Type][]int{}
+	for i := 0; i < sv.NumField(); i++ {
+		f := sv.Field(i)
+		if f.Kind() == reflect.Slice && f.Type().Elem().Kind() == reflect.Uint8 && f.CanSet() {
+			byType[f.Type()] = append(byType[f.Type()], i)
+		}
+	}
+	for t, idx := range byType {
+		total := 0
+		for _, i := range idx {
+			total += sv.Field(i).Len()
+		}
+		big := reflect.MakeSlice(t, total+16, total+16)
+		for k := total; k < total+16; k++ {
+			big.Index(k).SetUint(0xA5)
+		}
+		off := 0
+		for _, i := range idx {
+			f := sv.Field(i)
+			n := f.Len()
+			reflect.Copy(big.Slice(off, off+n), f)
+			f.Set(big.Slice3(off, off+n, total+16))
+			off += n
+		}
+	}
+}
+
+func smbShared(a []string) bool { return c13Used(append([]string{"shared-backing"}, a...)) }
+
 func smbEnc(a []string) string {
 	loadGenCmds()
 	if c13Used(a) {
@@ -482,6 +516,9 @@ func smbEnc(a []string) string {
 	}
 	c := newCmd(a[0])
 	setEnv(c, a[1])
+	if smbShared(a) {
+		shareBacking(c)
+	}
 	b, err := c.Marshal()
 	if err != nil {
 		return "err"
@@ -529,6 +566,9 @@ func smbRt(a []string) string {
 	g := genCmds[a[0]]
 	c := newCmd(a[0])
 	setEnv(c, a[2])
+	if smbShared(a) {
+		shareBacking(c)
+	}
 	b, err := c.Marshal()
 	if err != nil {
 		return "err"
